@@ -1821,7 +1821,8 @@ Theorem source_set_op_RJ s x new :
 Proof.
   intros R. unfold source_set_op. destruct (get_ss (fst s) x) as [y|];
     [|cbn [fst]; unfold lift; cbn [fst]; intros He; destruct (err_fail_none _ _ He)].
-  destruct (onat_eqb (ss_source y) new); [auto|]. cbn [fst].
+  destruct (onat_eqb (ss_source y) new); [auto|].
+  match goal with |- context[if ?b then (s, RExn XUnknownSource) else _] => destruct b end; [auto|]. cbn [fst].
   set (s1 := match ss_source y with Some _ => fold_left unload_fit_items (ss_fits y) s | None => s end).
   assert (H1 : w_err (fst s1) = None -> RJ (fst s1)).
   { subst s1. destruct (ss_source y); [|auto].
